@@ -93,6 +93,18 @@ def run(ctx):
             break
     if ctx.violations:
         return          # the small domain already shows the failure; the large histories would only add waiting time
+    # bulk growth through every allocation regime (malloc -> 2 MiB -> mmap -> mremap ...), audited in the harness against
+    # the finite map after every doubling, for the 8-byte (dedupe's seen-set) and the 16-byte (key + value) entry
+    for entry, n in ((8, 2_000_000), (16, 1_200_000)) if ctx.tier == "quick" else ((8, 20_000_000), (16, 12_000_000)):
+        op = f"table.bulk {n} {ctx.seed} {entry}"
+        x = pvlib.run_lines(ctx.impl(), [op], env=pvlib.san_env(), timeout=1800, stall=900)[0]
+        ctx.count("table.bulk", 1, [(entry, n)])
+        ctx.cov.setdefault("bulk", []).append(x[:80])
+        if not x.startswith("ok "):
+            pvlib.report_violation(ctx, f"table-bulk:{entry}:{n}", {"ops": [op], "impl": x[:300]},
+                                   summary=f"{n} distinct keys inserted into a table of {entry}-byte entries: {x[:200]}")
+    if ctx.violations:
+        return
     # large random histories (duplicates at random distance), answers + growth points
     sizes = [20000, 300000] if ctx.tier == "quick" else [20000, 300000, 5000000]
     for n in sizes:
